@@ -199,6 +199,16 @@ package plan
 //@ trusted github.com/XiaoMi/Gaea/parser/format.NewRestoreCtx
 //@   params flags, in
 //@   pure-call
+//@ func (*RouteResult).GetShardIndexes
+//@   requires r != nil
+//@   assigns \nothing
+//@   ensures ret0 == r.indexes
+// the table a decorator writes while a statement is rendered: the one under the cursor
+//@ func (*RouteResult).GetCurrentTableIndex
+//@   requires r != nil && 0 <= r.currentIndex
+//@   assigns \nothing
+//@   ensures case current: r.currentIndex < len(r.indexes) ==> ret1 == nil && ret0 == r.indexes[r.currentIndex]
+//@   ensures case past:    r.currentIndex >= len(r.indexes) ==> ret1 != nil
 //@ func (*RouteResult).HasNext
 //@   requires r != nil
 //@   assigns \nothing
@@ -240,6 +250,22 @@ package plan
 //@   assert at call GetSlice#0: arg1 == sliceIdxOf(arg0, result.indexes[result.currentIndex - 1])
 //@   ensures case everyCopy: ret1 == nil ==> rendered == len(result.indexes) && result.currentIndex == 0 && result.indexes == old(result.indexes)
 
+// batch INSERT: statement m is rendered while the cursor stands at m (so the table-name decorator writes table indexes[m] into
+// it), exactly once, and filed under the slice and physical database the rule names for indexes[m]; a statement list that does
+// not pair up with the route is rejected
+//@ func generateMultiShardingSQLs
+//@   requires result != nil && router != nil && result.currentIndex == 0 && len(result.indexes) < 1<<30
+//@   ghost-update at entry: rendered = 0
+//@   ghost-update after call String#0: rendered = rendered + 1
+//@   loop 0 invariant 0 <= result.currentIndex && result.currentIndex <= len(result.indexes) && rendered == result.currentIndex && result.indexes == old(result.indexes) && len(stmts) == len(result.indexes) && fresh(ret) && forall(k string, has(ret, k) ==> ret[k] != nil && fresh(ret[k])) && forall(k string, forall(d string, has(ret, k) && has(ret[k], d) ==> ret[k][d] == nil || fresh(ret[k][d])))
+//@   loop 0 assigns result.currentIndex
+//@   assert at call Restore#0: arg0 == stmts[result.currentIndex] && rendered == result.currentIndex
+//@   assert at call GetSliceIndexFromTableIndex#0: arg1 == result.indexes[result.currentIndex - 1]
+//@   assert at call GetDatabaseNameByTableIndex#0: arg1 == result.indexes[result.currentIndex - 1]
+//@   assert at call GetSlice#0: arg1 == sliceIdxOf(arg0, result.indexes[result.currentIndex - 1])
+//@   ensures case paired:    len(stmts) != len(old(result.indexes)) ==> ret1 != nil
+//@   ensures case everyStmt: ret1 == nil ==> rendered == len(result.indexes) && result.currentIndex == 0 && result.indexes == old(result.indexes)
+
 // ---------------------------------------------------------------- C03 every inserted row is stored once, where lookups find it
 // Batch INSERT / REPLACE: the rows are split into one statement per target table. rowPlace(p, j) is the table a point query on
 // row j's sharding value is routed to (the same place() the C01 read kernel uses). Two ghost functions name the witnesses:
@@ -255,7 +281,7 @@ package plan
 //@ pure rowPlace(p *InsertPlan, j int) int = place(shardOf(ruleOf(p)), rowVal(p, j))
 //@ pure rowOK(p *InsertPlan, j int) bool = rowLit(p, j) && rowVal(p, j) != nil && placeOK(shardOf(ruleOf(p)), rowVal(p, j))
 //@ pure stmtAt(p *InsertPlan, m int) *ast.InsertStmt = unbox(p.rewriteStmts[m], *ast.InsertStmt)
-//@ property C03: handleInsertValues
+//@ property C03: handleInsertValues, generateMultiShardingSQLs, (*RouteResult).GetShardIndexes, (*RouteResult).GetCurrentTableIndex
 //@ func handleInsertValues
 //@   requires p != nil && p.stmt != nil && p.result != nil && p.StmtInfo != nil && sorted(p.result.indexes) && len(p.rewriteStmts) == 0
 //@   requires has(p.tableRules, p.table) && ruleOf(p) != nil
